@@ -8,6 +8,11 @@
 #include "common/celltools.hpp"
 #include "common/engine.hpp"
 #include "common/tissuegen.hpp"
+#include "common/solverkit.hpp"
+#include "common/xmlgen.hpp"
+#include "parameter_reader.hpp"
+#include <filesystem>
+#include <fstream>
 
 #include "contact_face_face_via_coupling.hpp"
 #include "contact_node_face_via_spring.hpp"
@@ -30,11 +35,13 @@ struct Case {
     double max_curv = 1e300;
     unsigned rough = 0;         // != 0: every cell first undergoes real edge collapses / splits that leave unused node and face slots
     double far[3] = {0, 0, 0};  // extra translation of the whole tissue in units of the typical edge ("wherever the tissue is placed")
+    int via_xml = 0;            // != 0: edge length and the two cut-offs reach the contact model through a parameter file and the real XML reader
     void write(vf::Writer& w) const {
         tissue.write(w);
         w.d(lmin_f), w.d(cut_rep_f), w.d(cut_adh_f), w.i(normals_state), w.d(max_curv);
         w.d(far[0]), w.d(far[1]), w.d(far[2]);
         w.u(rough);
+        w.i(via_xml);
         w.nl();
     }
     static Case read(vf::Reader& r) {
@@ -43,6 +50,7 @@ struct Case {
         c.lmin_f = r.d(), c.cut_rep_f = r.d(), c.cut_adh_f = r.d(), c.normals_state = (int)r.i(), c.max_curv = r.d();
         if (r.more()) c.far[0] = r.d(), c.far[1] = r.d(), c.far[2] = r.d();
         if (r.more()) c.rough = (unsigned)r.u();
+        if (r.more()) c.via_xml = (int)r.i();
         return c;
     }
 };
@@ -56,6 +64,7 @@ static rc::Gen<Case> genCase() {
         c.cut_rep_f = *loguniform(0.05, 3.0);
         c.cut_adh_f = *loguniform(0.05, 3.0);
         c.normals_state = *irange(0, 2) != 0;
+        c.via_xml = *rc::gen::element(0, 0, 1, 2, 3);
         c.max_curv = *rc::gen::element(1e300, 1e300, 2.0, 0.8);
         // contact detection involves no quantity that is ill-conditioned far from the origin (unlike the enclosed volume), so the
         // placements go much further out than elsewhere: up to 1e7 edge lengths, where a double still resolves 1e-9 edge
@@ -210,6 +219,44 @@ static std::string run(const Case& k, vf::Ctx& ctx) {
     sp.min_edge_len_ = k.lmin_f * k.tissue.edge;
     sp.contact_cutoff_repulsion_ = k.cut_rep_f * k.tissue.edge;
     sp.contact_cutoff_adhesion_ = k.cut_adh_f * k.tissue.edge;
+    if (k.via_xml) {
+        // end-to-end clause of C18 ("the values govern the run they are named after ... edge length, cut-offs"): the three values are written
+        // into a parameter file, come back through parameter_reader, and the structure it returns is what the contact model is built from
+        const std::string dir = sk::scratch_dir("c06xml");
+        std::filesystem::create_directories(dir);
+        struct RmDir {
+            std::string d;
+            ~RmDir() {
+                std::error_code ec;
+                std::filesystem::remove_all(d, ec);
+            }
+        } rmdir{dir};
+        xg::ParamFile pf = xg::defaults(dir + "/unused.vtk", dir + "/out");
+        auto txt = [](double v) {
+            char b[64];
+            snprintf(b, sizeof b, "%.17g", v);
+            return std::string(b);
+        };
+        *xg::find(pf.numerical, "min_edge_length") = txt(sp.min_edge_len_);
+        *xg::find(pf.numerical, "contact_cutoff_adhesion") = txt(sp.contact_cutoff_adhesion_);
+        *xg::find(pf.numerical, "contact_cutoff_repulsion") = txt(sp.contact_cutoff_repulsion_);
+        {
+            std::ofstream o(dir + "/p.xml");
+            o << xg::render(pf, (unsigned)k.via_xml);
+        }
+        global_simulation_parameters want = sp;
+        try {
+            parameter_reader rd(dir + "/p.xml");
+            sp = rd.read_numerical_parameters();
+        } catch (const std::exception& e) {
+            return std::string("valid parameter file rejected: ") + e.what();
+        }
+        if (sp.min_edge_len_ != want.min_edge_len_ || sp.contact_cutoff_adhesion_ != want.contact_cutoff_adhesion_ || sp.contact_cutoff_repulsion_ != want.contact_cutoff_repulsion_)
+            return "edge length / cut-offs returned by the parameter reader are not those of the file";
+        ctx.count("parameters_through_the_xml_reader");
+        if (k.cut_adh_f > k.cut_rep_f * 1.2) ctx.count("xml_adhesion_cutoff_above_repulsion_cutoff");
+        if (k.cut_rep_f > k.cut_adh_f * 1.2) ctx.count("xml_repulsion_cutoff_above_adhesion_cutoff");
+    }
     std::vector<cell_ptr> A = b.cells;
     prepare(A, k);
     std::vector<cell_ptr> B = tg::clone(A, &scope), C = tg::clone(A, &scope);
